@@ -1,6 +1,7 @@
 (* C10 model driver.
    A <P|T> <file hex|->                  -> ACCEPT order=<k> bound=<n> | REJECT <class>
    B <type 0..5|v> <enum 0|1> <file hex> -> REJECT <class> | UNDECIDED
+   S <file size> <order> <size>          -> REJECT Format | UNDECIDED   (BinaryFormat::LoadBinary, numbers in hex)
    F <hex>                               -> FilePiece::ReadFloat probe: <class> <bytes consumed> | ERR <class> *)
 open C10_model
 (*INCLUDE zio*)
@@ -29,6 +30,12 @@ let handle (line : string) : string =
        | Err e -> "REJECT " ^ err_name e)
   | ["B"; t; en; h] ->
       (match check_binary_header (bytes_of_hex h) (if t = "v" then None else Some (n_of_int (int_of_string t))) (en = "1") with
+       | BinReject e -> "REJECT " ^ err_name e
+       | BinUndecided -> "UNDECIDED")
+  | ["S"; fs; order; size] ->
+      (* LoadBinary's size test: file size, order, image bytes after the header (all hex) *)
+      let n x = match z_of_hex x with Z0 -> N0 | Zpos p -> Npos p | Zneg _ -> failwith "neg" in
+      (match check_binary_size (n fs) (n order) (n size) with
        | BinReject e -> "REJECT " ^ err_name e
        | BinUndecided -> "UNDECIDED")
   | ["F"; h] ->
